@@ -99,7 +99,7 @@ RULE = ("cases = (a) all unordered pairs of a fixed list of atoms (builtin scala
 ASSUMPTIONS = ["numpy, pandas, copy.deepcopy and pickle are trusted to reproduce the described value",
                "the harness oracle diff() defines 'observably different' (type, value, dtype, shape, names, index, categories, "
                "fields, code/defaults/closure); memory layout and block structure are not observable differences"]
-BUDGET = {"quick": 40, "thorough": 520}
+BUDGET = {"quick": 90, "thorough": 900}
 CASE_TIMEOUT = 1000
 FLOORS = {
     # measured (seed 0; seeds 1, 2, 7, 12345 within 1 %): 78177 cases, 84995 distinct, determinism_checks 479662,
